@@ -7,9 +7,11 @@
      - C18_eig_AB_BA: every eigenpair (lambda, w) of B A yields the eigenpair (lambda, A w) of A B -- A w = Q U S^-1 w
        is exactly the returned eigentensor; so every returned eigenvalue is an eigenvalue of matrix EDMD and the
        returned eigentensor satisfies its eigen-equation (real spectra; the code takes real parts);
+     - C18_nonzero_spectrum_found: conversely every eigenpair (lambda, v) of A B gives the eigenpair (lambda, B v) of the
+       reduced matrix B A, and B v = 0 forces lambda v = 0: no non-zero eigenvalue of matrix EDMD is missed by the
+       reduced problem (as a set; multiplicities are not treated);
      - C18_list_independent: a call with a list of index-set pairs is the map of the single-pair routine.
-   Outside the proof: eig/SVD are oracles; "all non-zero eigenvalues are found" (multiplicity of non-zero eigenvalues of
-   AB and BA), the ordering by |lambda - 1| on complex numbers and the HOCUR variant (its cross approximation is not
+   Outside the proof: eig/SVD are oracles; the multiplicity of non-zero eigenvalues of AB and BA, the ordering by |lambda - 1| on complex numbers and the HOCUR variant (its cross approximation is not
    modelled) are decided by correspondence + side check. *)
 From Coq Require Import ZArith List Lia Arith.
 Import ListNotations.
@@ -21,6 +23,13 @@ Theorem C18_eig_AB_BA (R : cring) (N k : nat) (A B : M R) (w : nat -> R) (lam : 
   forall x, sum N (fun y => mmul k A B x y * sum k (fun j => A y j * w j)) = lam * sum k (fun j => A x j * w j).
 Proof. exact (eig_AB_BA N k A B w lam). Qed.
 Print Assumptions C18_eig_AB_BA.
+
+Theorem C18_nonzero_spectrum_found (R : cring) (N k : nat) (A B : M R) (v : nat -> R) (lam : R) :
+  (forall x, (x < N)%nat -> sum N (fun y => mmul k A B x y * v y) = lam * v x) ->
+  (forall i, sum k (fun j => mmul N B A i j * sum N (fun y => B j y * v y)) = lam * sum N (fun y => B i y * v y)) /\
+  ((forall j, (j < k)%nat -> sum N (fun y => B j y * v y) = 0) -> forall x, (x < N)%nat -> lam * v x = 0).
+Proof. exact (eig_back N k A B v lam). Qed.
+Print Assumptions C18_nonzero_spectrum_found.
 
 Theorem C18_reduced_is_BA (R : cring) (N r k nx : nat) (Q Um Vm Cy : M R) (sinv : nat -> R) p q :
   (forall a b, (a < r)%nat -> (b < r)%nat -> sum N (fun x => Q x a * Q x b) = delta a b) ->
